@@ -1,6 +1,6 @@
 (* C12 — consumer group: the observable trace of a run is accepted by the observer automaton. *)
 From Coq Require Import List Arith Bool Lia.
-From SV Require Import C12.Lts C12.LtsProofs C12.Tac C12.Group C12.GroupProofs C12.GroupSafety C12.GroupSim C12.GroupSimA C12.GroupSimB C12.GroupSimC C12.GroupSimD C12.GroupSimE C12.GroupSimF.
+From SV Require Import C12.Lts C12.LtsProofs C12.Tac C12.Group C12.GroupProofs C12.GroupSafety C12.GroupSim C12.GroupSim_01 C12.GroupSim_02 C12.GroupSim_03 C12.GroupSim_04 C12.GroupSim_05 C12.GroupSim_06 C12.GroupSim_07 C12.GroupSim_08 C12.GroupSim_09.
 Import ListNotations.
 
 Module GrpA.
